@@ -339,7 +339,8 @@ func (cp *chargePoint) SendRequestAsync(request ocpp.Request, callback func(conf
 	return err
 }
 
-func (cp *chargePoint) asyncCallbackHandler() {
+// stopC is the stop signal of this session: Start replaces the field for the next one
+func (cp *chargePoint) asyncCallbackHandler(stopC chan struct{}) {
 	for {
 		select {
 		case confirmation := <-cp.confirmationHandler:
@@ -358,7 +359,7 @@ func (cp *chargePoint) asyncCallbackHandler() {
 				err := fmt.Errorf("no handler available for error %v", protoError.Error())
 				cp.error(err)
 			}
-		case <-cp.stopC:
+		case <-stopC:
 			// Handler stopped, cleanup callbacks.
 			// No callback invocation, since the user manually stopped the client.
 			cp.clearCallbacks(false)
@@ -433,7 +434,7 @@ func (cp *chargePoint) Start(centralSystemUrl string) error {
 	err := cp.client.Start(centralSystemUrl)
 	// Async response handler receives incoming responses/errors and triggers callbacks
 	if err == nil {
-		go cp.asyncCallbackHandler()
+		go cp.asyncCallbackHandler(cp.stopC)
 	}
 	return err
 }
